@@ -293,6 +293,19 @@ func (r *DenseFloat32Matrix) MdotM(a, b ConstMatrix) Matrix {
   if n1 != n || m2 != m || m1 != n2 {
     panic("matrix dimensions do not match!")
   }
+  // The result may be stored in one of the factors while it is computed only
+  // if this factor is exactly the same view as the result (see the two
+  // schedules below). Factors that share the storage of the result in any
+  // other way (both factors are the result, transposed or shifted views on
+  // the same storage) are copied first.
+  sa := r.sharesStorage(a)
+  if sa && !r.sameView(a) {
+    a = a.CloneConstMatrix()
+    sa = false
+  }
+  if r.sharesStorage(b) && (sa || !r.sameView(b)) {
+    b = b.CloneConstMatrix()
+  }
   t1 := float32(0)
   t2 := float32(0)
   if r.storageLocation() == b.storageLocation() {
@@ -334,6 +347,19 @@ func (r *DenseFloat32Matrix) MDOTM(a, b *DenseFloat32Matrix) Matrix {
   n2, m2 := b.Dims()
   if n1 != n || m2 != m || m1 != n2 {
     panic("matrix dimensions do not match!")
+  }
+  // The result may be stored in one of the factors while it is computed only
+  // if this factor is exactly the same view as the result (see the two
+  // schedules below). Factors that share the storage of the result in any
+  // other way (both factors are the result, transposed or shifted views on
+  // the same storage) are copied first.
+  sa := r.sharesStorage(a)
+  if sa && !r.sameView(a) {
+    a = a.Clone()
+    sa = false
+  }
+  if r.sharesStorage(b) && (sa || !r.sameView(b)) {
+    b = b.Clone()
   }
   t1 := float32(0)
   t2 := float32(0)
